@@ -4,6 +4,7 @@ import (
 	"math"
 	"strconv"
 	"strings"
+	"unicode/utf8"
 
 	"verif/sim/model"
 )
@@ -58,7 +59,8 @@ func scoreInf(s string) int {
 // want is the model's reply (nil when no model runs), st the model state
 // after the command, preLen the length the addressed list had before the
 // command as the harness read it (-1: not known, e.g. inside a batch).
-func knownShape(args []string, want interface{}, st *model.Store, preLen int, engine string) string {
+func knownShape(args []string, want interface{}, st *model.Store, pre preState, engine string) string {
+	preLen := pre.listLen
 	name := args[0]
 	a := args[1:]
 	if model.MultiKey(name) {
@@ -81,8 +83,18 @@ func knownShape(args []string, want interface{}, st *model.Store, preLen int, en
 			return "nan-score-accepted"
 		}
 		if len(a) == 3 {
-			if f, err := strconv.ParseFloat(a[1], 64); err == nil && f == 0 {
-				return "zincrby-zero-drops-member-from-score-index"
+			// the new score equals the old one (increment 0, or the member
+			// already sits at an infinity the increment cannot move)
+			if f, err := strconv.ParseFloat(a[1], 64); err == nil && !math.IsNaN(f) {
+				switch {
+				case f == 0:
+					return "zincrby-unchanged-score-drops-member-from-score-index"
+				case !pre.known && !math.IsInf(f, 0):
+					// inside a batch the old score is not known
+					return "zincrby-unchanged-score-drops-member-from-score-index"
+				case pre.known && pre.zhad && math.IsInf(pre.zscore, 0) && pre.zscore+f == pre.zscore:
+					return "zincrby-unchanged-score-drops-member-from-score-index"
+				}
 			}
 		}
 	case "zrangebyscore", "zrevrangebyscore", "zcount", "zremrangebyscore":
@@ -246,7 +258,15 @@ func knownShape(args []string, want interface{}, st *model.Store, preLen int, en
 	return ""
 }
 
-func known13(sp scanSpec, rule string) string { return "" }
+// known13: the plain SCAN command returns table:key as the partition cursor
+// and the server prepends the table again on the next call, so every page
+// after the first starts at the wrong place.
+func known13(sp scanSpec, rule string, pages int) string {
+	if sp.cmd == "scan" && pages >= 2 {
+		return "scan-cursor-carries-the-table-twice"
+	}
+	return ""
+}
 
 // damaging: deviations after which the stored representation of the key is
 // inconsistent (size counter, index entries), so that nothing read from the
@@ -255,8 +275,65 @@ func damaging(key string) bool {
 	switch key {
 	case "sadd-duplicate-member-counted-twice", "srem-duplicate-member-counted-twice", "zrem-duplicate-member-counted-twice",
 		"zadd-duplicate-member-in-one-command", "hmset-duplicate-field-counted-twice", "hdel-duplicate-field-counted-twice",
-		"nan-score-accepted", "zincrby-zero-drops-member-from-score-index", "ltrim-range-before-head-errors-and-corrupts-the-list":
+		"nan-score-accepted", "zincrby-unchanged-score-drops-member-from-score-index", "ltrim-range-before-head-errors-and-corrupts-the-list":
 		return true
 	}
 	return false
+}
+
+// preState: ground truth read by the harness before a single command, used
+// only to recognise the shapes of recorded deviations.
+type preState struct {
+	known   bool
+	listLen int // -1: not known
+	zhad    bool
+	zscore  float64
+}
+
+// batchable: the write commands the state machine collects into one shared
+// write batch (rockredis batchableCmds; DEL only with a single key).
+func batchable(args []string) bool {
+	switch args[0] {
+	case "set", "setex", "hmset":
+		return true
+	case "del":
+		return len(args) == 2
+	}
+	return false
+}
+
+// laterFailingSetex: a SETEX whose expire time is only rejected when it is
+// applied (it is not validated before it is proposed).
+func laterFailingSetex(cmds [][]string) bool {
+	for _, a := range cmds {
+		if a[0] == "setex" && len(a) == 4 {
+			if n, err := strconv.ParseInt(a[2], 10, 64); err != nil || n <= 0 {
+				return true
+			}
+		}
+	}
+	return false
+}
+
+// panicShape: the write commands the slow-write limiter watches (node
+// maybeSlowCmd) use the table name as a metrics label; a table name that is
+// not valid UTF-8 panics there. The server recovers, closes the connection
+// and the command is not executed.
+func slowCmd(name string) bool {
+	switch name {
+	case "spop", "zremrangebyrank", "zremrangebyscore", "zremrangebylex", "ltrim", "sclear", "zclear", "lclear", "hclear":
+		return true
+	}
+	return false
+}
+
+func panicShape(args []string) string {
+	if slowCmd(args[0]) {
+		if len(args) > 1 {
+			if i := strings.IndexByte(args[1], ':'); i > 0 && !utf8.ValidString(args[1][:i]) {
+				return "non-utf8-table-name-panics-in-slow-write-metrics"
+			}
+		}
+	}
+	return ""
 }
